@@ -816,6 +816,11 @@ fn plan_base(prop: &str) -> Vec<Item> {
             v.push(it("pipe_in_items", "pool=1,n=2,pat=1,conc=1,sinpoll=2", Some(1), 2));
             v.push(it("pipe_in_items", "pool=1,n=1,pat=1,conc=0,fin=1,sinpoll=1", Some(2), 3));
             v.push(it("pipe_in_items", "pool=0,n=1,pat=0,conc=1,sinpoll=1", Some(2), 3));
+            // cooperative yields: the input wakes its caller, registers nothing and says Pending although items are ready (seed C11-j)
+            v.push(it("pipe_in_items", "pool=1,n=2,pat=0,conc=0,syield=1", Some(2), 3));
+            v.push(it("pipe_in_items", "pool=1,n=2,pat=1,conc=1,syield=2", Some(1), 2));
+            v.push(it("pipe_in_items", "pool=0,n=1,pat=0,conc=1,syield=1", Some(2), 3));
+            v.push(it("pipe_in_items", "pool=1,n=1,pat=1,conc=0,fin=1,syield=1", Some(2), 3));
             // the input wakes its own waker from inside poll_next, after the last owner of the Desync has gone
             v.push(it("pipe_in_items", "pool=1,n=1,pat=9,conc=0,dropmid=1,inpoll=1", Some(2), 3));
             v.push(it("pipe_in_items", "pool=2,n=1,pat=9,conc=0,dropmid=1,inpoll=2", Some(1), 2));
@@ -855,6 +860,8 @@ fn plan_base(prop: &str) -> Vec<Item> {
             v.push(it("pipe_partial", "pool=2,d=3,r=1", Some(1), 2));
             v.push(it("pipe_out", "pool=1,n=2,d=1,pat=1,sinpoll=2", Some(1), 2));
             v.push(it("pipe_out", "pool=1,n=1,d=2,pat=0,sinpoll=1", Some(2), 3));
+            v.push(it("pipe_out", "pool=1,n=2,d=1,pat=1,syield=2", Some(2), 3));
+            v.push(it("pipe_out", "pool=1,n=2,d=2,pat=0,syield=1", Some(2), 3));
             v.push(it("pipe_partial", "pool=1,d=3,r=1,sinpoll=1", Some(1), 2));
             // the pipe's producer is the task that awaits a future_sync on the same Desync (no pool thread); yielding processing
             for (n, y) in [(1, 1), (2, 1), (2, 2), (3, 1)] {
@@ -925,6 +932,7 @@ fn plan_base(prop: &str) -> Vec<Item> {
                 }
                 // ... with an input that yields cooperatively (wakes itself from inside poll_next) once
                 v.push(it("pipe_drop_output", &format!("pool=1,mode={},sinpoll=1", mode), Some(1), 2));
+                v.push(it("pipe_drop_output", &format!("pool=1,mode={},syield=1", mode), Some(1), 2));
             }
         }
         "C17" => {
